@@ -699,6 +699,17 @@ DJV_CMD(get, "get")
 }
 
 // set <trackvar> <field> <value...>
+// Every setter that has a plain-value convenience overload next to the
+// std::optional one (track.hpp) is called through the two alternately when the
+// value is present: the overloads are public entry points of their own.
+static unsigned g_set_overload = 0;
+#define DJV_SETOVL(T, M, expr)                                       \
+    do                                                               \
+    {                                                                \
+        std::optional<T> v_ = (expr);                                \
+        if (v_ && (++g_set_overload & 1u)) t.M(static_cast<T>(std::move(*v_)));   \
+        else t.M(v_);                                                \
+    } while (0)
 DJV_CMD(set, "set")
 {
     auto& t = TR(a.at(1));
@@ -710,24 +721,26 @@ DJV_CMD(set, "set")
         if (!v) return std::nullopt;
         return (int)*v;
     };
-    if (f == "album") t.set_album(rd_ostr(c));
-    else if (f == "artist") t.set_artist(rd_ostr(c));
-    else if (f == "average_loudness") t.set_average_loudness(c.optf());
+    if (f == "album") DJV_SETOVL(std::string, set_album, rd_ostr(c));
+    else if (f == "artist") DJV_SETOVL(std::string, set_artist, rd_ostr(c));
+    else if (f == "average_loudness") DJV_SETOVL(double, set_average_loudness, c.optf());
     else if (f == "beatgrid") t.set_beatgrid(rd_grid(c));
-    else if (f == "bitrate") t.set_bitrate(oint());
-    else if (f == "bpm") t.set_bpm(c.optf());
-    else if (f == "comment") t.set_comment(rd_ostr(c));
-    else if (f == "composer") t.set_composer(rd_ostr(c));
+    else if (f == "bitrate") DJV_SETOVL(int, set_bitrate, oint());
+    else if (f == "bpm") DJV_SETOVL(double, set_bpm, c.optf());
+    else if (f == "comment") DJV_SETOVL(std::string, set_comment, rd_ostr(c));
+    else if (f == "composer") DJV_SETOVL(std::string, set_composer, rd_ostr(c));
     else if (f == "duration")
     {
         auto v = c.opti64();
-        t.set_duration(v ? std::make_optional(std::chrono::milliseconds{*v}) : std::nullopt);
+        DJV_SETOVL(std::chrono::milliseconds, set_duration, v ? std::make_optional(std::chrono::milliseconds{*v}) : std::nullopt);
     }
-    else if (f == "genre") t.set_genre(rd_ostr(c));
+    else if (f == "genre") DJV_SETOVL(std::string, set_genre, rd_ostr(c));
     else if (f == "hot_cue_at")
     {
         int i = (int)c.i64();
-        t.set_hot_cue_at(i, rd_optcue(c));
+        std::optional<dj::hot_cue> v = rd_optcue(c);
+        if (v && (++g_set_overload & 1u)) t.set_hot_cue_at(i, dj::hot_cue(*v));
+        else t.set_hot_cue_at(i, v);
     }
     else if (f == "hot_cues")
     {
@@ -739,21 +752,22 @@ DJV_CMD(set, "set")
     else if (f == "key")
     {
         auto v = c.opti64();
-        t.set_key(v ? std::make_optional((dj::musical_key)(int)*v) : std::nullopt);
+        DJV_SETOVL(dj::musical_key, set_key, v ? std::make_optional((dj::musical_key)(int)*v) : std::nullopt);
     }
     else if (f == "last_played_at")
     {
         auto v = c.opti64();
-        if (v)
-            t.set_last_played_at(std::chrono::system_clock::time_point{
-                std::chrono::duration_cast<std::chrono::system_clock::duration>(std::chrono::nanoseconds{*v})});
-        else
-            t.set_last_played_at(std::nullopt);
+        DJV_SETOVL(std::chrono::system_clock::time_point, set_last_played_at,
+                   v ? std::make_optional(std::chrono::system_clock::time_point{
+                           std::chrono::duration_cast<std::chrono::system_clock::duration>(std::chrono::nanoseconds{*v})})
+                     : std::nullopt);
     }
     else if (f == "loop_at")
     {
         int i = (int)c.i64();
-        t.set_loop_at(i, rd_optloop(c));
+        std::optional<dj::loop> v = rd_optloop(c);
+        if (v && (++g_set_overload & 1u)) t.set_loop_at(i, dj::loop(*v));
+        else t.set_loop_at(i, v);
     }
     else if (f == "loops")
     {
@@ -763,19 +777,19 @@ DJV_CMD(set, "set")
         t.set_loops(v);
     }
     else if (f == "main_cue") t.set_main_cue(c.optf());
-    else if (f == "publisher") t.set_publisher(rd_ostr(c));
-    else if (f == "rating") t.set_rating(oint());
+    else if (f == "publisher") DJV_SETOVL(std::string, set_publisher, rd_ostr(c));
+    else if (f == "rating") DJV_SETOVL(int, set_rating, oint());
     else if (f == "relative_path") t.set_relative_path(c.str());
     else if (f == "sample_count")
     {
         auto& tk = c.next();
-        t.set_sample_count(tk == "none" ? std::nullopt : std::make_optional((unsigned long long)parse_u64(tk)));
+        DJV_SETOVL(unsigned long long, set_sample_count, tk == "none" ? std::nullopt : std::make_optional((unsigned long long)parse_u64(tk)));
     }
-    else if (f == "sample_rate") t.set_sample_rate(c.optf());
-    else if (f == "title") t.set_title(rd_ostr(c));
-    else if (f == "track_number") t.set_track_number(oint());
+    else if (f == "sample_rate") DJV_SETOVL(double, set_sample_rate, c.optf());
+    else if (f == "title") DJV_SETOVL(std::string, set_title, rd_ostr(c));
+    else if (f == "track_number") DJV_SETOVL(int, set_track_number, oint());
     else if (f == "waveform") t.set_waveform(rd_wf(c));
-    else if (f == "year") t.set_year(oint());
+    else if (f == "year") DJV_SETOVL(int, set_year, oint());
     else throw bad_command{"field " + f};
     c.done();
     return "";
